@@ -1,14 +1,14 @@
 SPECIFICATION Spec
 CONSTANTS
   Servers = {"A"}
-  B0s <- B0All
-  Shapes <- ShapesAll
-  Vias <- ViasAll
-  MaxInject = 1
+  B0s <- B0Env2
+  Shapes <- ShapesEnv2
+  Vias <- ViasEnv
+  MaxInject = 2
   Spoof = FALSE
   Confs <- ConfsAll
-  Stores <- StoresQuick
+  Stores <- StoresEnv2
   Ancs <- AncsAll
   RestoreAtTop = TRUE
-CONSTRAINTS GenDeep
+CONSTRAINTS EnvSecond
 INVARIANTS ReplyIffValid ExactlyOne ToSender ReplyHeader NeverAnswersReply BoundedTraffic HistoryIndependence StoreSane
